@@ -188,8 +188,13 @@ def many_fragments(rng):
     for (y, x) in rng.sample(cells, k):
         pred[y, x] = lab * step
         lab += 1
-    pred[side - 3, 2:4] = lab * step
-    pred[side - 2:side, 0:side] = lab * step       # spills far outside the reference
+    if rng.random() < 0.5:
+        pred[side - 3, 2:4] = lab * step
+        pred[side - 2:side, 0:side] = lab * step       # spills far outside the reference (below it)
+    else:
+        pred[0:2, 0:side] = lab * step                 # spills far outside (above), last voxel in raster order inside
+        free = [c for c in cells if pred[c] == 0]
+        pred[rng.choice(free)] = lab * step
     return pred, ref
 
 
